@@ -20,9 +20,10 @@ import SigModel.Lemmas.C12b
 import SigModel.Lemmas.C12d
 import SigModel.Lemmas.C12e
 import SigModel.Lemmas.C12f
+import SigModel.Lemmas.C12g
 
 namespace SigModel.Props.C12
-open SigModel.Trace SigModel.Lemmas.C12 List
+open SigModel.Trace SigModel.TraceE2E SigModel.Lemmas.C12 List
 
 /-! ## 1. span tree -/
 
@@ -288,6 +289,200 @@ theorem red_percentiles (spans : List Span) (svc : Nat) (hne : entryDurs spans s
   have hn := length_pos_iff.2 hne
   redRow_percentiles spans svc hne (pctIndex_ceil_lt 50 _ (by omega) hn hbig) (pctIndex_ceil_lt 90 _ (by omega) hn hbig)
     (pctIndex_ceil_lt 95 _ (by omega) hn hbig) (pctIndex_ceil_lt 99 _ (by omega) hn hbig)
+
+/-! ## 5. OTLP ingest boundary (Model/TraceE2E.lean, tied by the suite `tracee2e`) -/
+
+/-- C12.6 FRAME property of ProcessTraceIngest: the documents handed to the segment writer are the
+concatenation, in request order, of what each ResourceSpans contributes BY ITSELF (`docsOfRes r`, a function of
+`r` alone: its spans converted with the service found in ITS resource attributes).  Nothing a resource
+contributes depends on the resources before it — in particular not on the value the loop variable `service`
+was left with (`ingestRes_facts` holds for every incoming state). -/
+theorem ingest_frame (rs : List ResSpans) : (ingest rs).docs = rs.flatMap docsOfRes := by
+  have := (foldl_ingestRes rs {}).1
+  simpa [ingest] using this
+
+/-- C12.6b the same for one resource in the middle of a request, with an arbitrary prefix and suffix -/
+theorem ingest_frame_middle (pre post : List ResSpans) (r : ResSpans) :
+    (ingest (pre ++ r :: post)).docs = (ingest pre).docs ++ docsOfRes r ++ (ingest post).docs := by
+  rw [ingest_frame, ingest_frame, ingest_frame, flatMap_append, flatMap_cons, append_assoc]
+
+/-- C12.6c the stored service of a span is the service named by ITS resource (the last `service.name` string
+attribute; "" when the resource is nil or names none) — for every span that does not itself carry an attribute
+called `service` (see C12.6e) -/
+theorem ingest_service_of_own_resource (rs : List ResSpans) (r : ResSpans) (sp : OSpan) (d : List (String × JVal))
+    (hr : r ∈ rs) (hsp : sp ∈ r.scopes.flatMap id) (hd : spanToJson sp (serviceOfRes r) = some d)
+    (hattr : ∀ kv ∈ sp.attrs, kv.1 ≠ "service") :
+    d ∈ (ingest rs).docs ∧ getKV d "service" = some (.str (serviceOfRes r)) := by
+  refine ⟨?_, ?_⟩
+  · rw [ingest_frame, mem_flatMap]
+    refine ⟨r, hr, ?_⟩
+    unfold docsOfRes
+    rw [mem_filterMap]
+    exact ⟨sp, hsp, hd⟩
+  · unfold spanToJson at hd
+    rw [foldlM_setKV_keeps "service" sp.attrs _ d hattr hd]
+    rfl
+
+/-- C12.6d the counters behind the response: every span of the request is counted, and every span is either
+stored or counted as failed (the partial-success message reports exactly the spans that were not stored) -/
+theorem ingest_counts (rs : List ResSpans) :
+    (ingest rs).numSpans = (rs.flatMap (fun r => r.scopes.flatMap id)).length ∧
+    (ingest rs).numFailed + (ingest rs).docs.length = (ingest rs).numSpans := by
+  obtain ⟨_, h2, h3⟩ := foldl_ingestRes rs {}
+  have e2 : (ingest rs).numSpans = (rs.flatMap (fun r => r.scopes.flatMap id)).length := by
+    simpa [ingest] using h2
+  refine ⟨e2, ?_⟩
+  rw [e2]
+  simpa [ingest] using h3
+
+/-- C12.6e the statement "the stored document has the span's own ids / service / name / times / status" is
+FALSE for spanToJson as it is: an attribute whose key equals a fixed field overwrites that field … -/
+theorem stored_fields_counterexample :
+    ¬ ∀ (sp : OSpan) (service : String) (d : List (String × JVal)), spanToJson sp service = some d →
+        getKV d "service" = some (.str service) ∧ getKV d "status" = some (.str (statusName sp.status)) := by
+  intro h
+  have := h { trace := "ab", sid := "01", pid := "", name := "op", start := 5, end_ := 9, status := some 2,
+              attrs := [("status", .str "paid"), ("service", .str "billing")] } "checkout"
+    [("trace_id", .str "ab"), ("span_id", .str "01"), ("parent_span_id", .str ""), ("service", .str "billing"),
+     ("name", .str "op"), ("start_time", .num 5), ("end_time", .num 9), ("duration", .num 4), ("status", .str "paid")]
+    (by decide)
+  exact absurd this.1 (by decide)
+
+/-- … and TRUE for every field that no attribute of the span is named after (decidable guard). -/
+theorem stored_fields_partial (sp : OSpan) (service k : String) (d : List (String × JVal))
+    (hd : spanToJson sp service = some d) (hguard : ∀ kv ∈ sp.attrs, kv.1 ≠ k) :
+    getKV d k = getKV (baseDoc sp service) k :=
+  foldlM_setKV_keeps k sp.attrs _ d hguard hd
+
+/-! ## 6. result paging -/
+
+/-- C12.7 the paging loop of ProcessGanttChartRequest (pages of `P` records, next page `P` further, stop at
+an empty page or after a page shorter than `P`) folds the loop body over EVERY record of the result list,
+for every page size P > 0, every number of records and every pattern of duplicate / skipped records. -/
+theorem gantt_collects_all (P : Nat) (hP : 0 < P) (recs : List Rec) :
+    ganttCollect P recs = recs.foldl gStep {} :=
+  pageLoop_all gStep P hP true recs {}
+
+/-- C12.7b hence the page size is irrelevant: the span tree of a trace of any size is the tree of all its
+records (what the Oracle of the suite `tracee2e` relies on when the harness shrinks the page) -/
+theorem gantt_page_size_irrelevant (P Q : Nat) (hP : 0 < P) (hQ : 0 < Q) (pick : Nat) (recs : List Rec) (t : String) :
+    gantt P pick recs t = gantt Q pick recs t := by
+  unfold gantt
+  rw [gantt_collects_all P hP, gantt_collects_all Q hQ]
+
+/-- C12.7c every stored span of the trace is in the span map exactly once: the keys of `idToSpanMap` are
+distinct, and a span id is a key iff some record with that id passed the checks of the loop body (`complete`:
+duration fits uint64, service / name / parent_span_id / status present) — on whatever page that record was. -/
+theorem gantt_every_span_once (P : Nat) (hP : 0 < P) (recs : List Rec) :
+    ((ganttCollect P recs).spans.map (·.1)).Nodup ∧
+    ∀ x, x ∈ (ganttCollect P recs).spans.map (·.1) ↔ ∃ r ∈ recs, complete r = true ∧ r.sid = x := by
+  rw [gantt_collects_all P hP]
+  refine ⟨foldl_gStep_nodup recs {} (by simp), ?_⟩
+  intro x
+  rw [foldl_gStep_keys]
+  simp
+
+/-- C12.7d composition with C12.1: if the collected spans form a well-formed trace, the response contains
+every one of them exactly once beneath its parent — for every page size. -/
+theorem gantt_tree_each_span_once (P : Nat) (hP : 0 < P) (pick : Nat) (recs : List Rec)
+    (h : wellFormed (gSpans (recs.foldl gStep {})) = true) :
+    ∃ view, treeView (gSpans (ganttCollect P recs)) pick = some view ∧
+      (view.map Prod.snd) ~ ((gSpans (ganttCollect P recs)).map (·.id)) ∧
+      (∀ e ∈ view, ∃ s ∈ gSpans (ganttCollect P recs), s.id = e.2 ∧ s.parent = e.1) := by
+  rw [gantt_collects_all P hP]
+  exact tree_each_span_once _ pick h
+
+/-- C12.7e the loops are only correct because stride and page size are the same number: with a stride larger
+than the page records are lost, with a smaller one they are seen twice -/
+theorem paging_stride_counterexample :
+    pageLoop (fun acc r => acc ++ [r]) 2 3 false [1, 2, 3, 4, 5] 6 0 ([] : List Nat) ≠ [1, 2, 3, 4, 5] ∧
+    pageLoop (fun acc r => acc ++ [r]) 2 1 false [1, 2, 3] 4 0 ([] : List Nat) ≠ [1, 2, 3] := by
+  constructor <;> decide
+
+/-- C12.7f ProcessRedTracesIngest (stops at the first empty page only) collects every span of the window,
+for every page size, unless a page cannot be unmarshalled -/
+theorem red_collects_all (P : Nat) (hP : 0 < P) (recs : List Rec) (h : recs.any poison = false) :
+    redCollect P recs = some recs := by
+  unfold redCollect
+  rw [h, pageLoop_all _ P hP false recs [], foldl_snoc]
+  simp
+
+/-! ## 7. trace listing (first page) -/
+
+/-- C12.8 whenever the listing is produced: no trace is listed twice, every listed trace has records, and
+every row is what `searchRow` computes for that trace -/
+theorem search_lists_each_trace_once (recs : List Rec) (rows : List TraceRow) (h : search recs = .ok rows) :
+    (rows.map (·.trace)).Nodup ∧
+    ∀ row ∈ rows, (∃ r ∈ recs, r.trace = row.trace) ∧ searchRow recs row.trace = .ok (some row) := by
+  unfold search at h
+  simp only [] at h
+  split at h
+  · cases h
+  · split at h
+    · cases h
+    · rename_i rows' hrows
+      simp only [SearchOut.ok.injEq] at h
+      subst h
+      obtain ⟨h1, h2⟩ := searchRows_sound hrows
+      refine ⟨h1.nodup (traceIds_nodup recs), ?_⟩
+      intro row hrow
+      refine ⟨?_, h2 row hrow⟩
+      have : row.trace ∈ traceIds recs := h1.subset (mem_map.2 ⟨row, hrow, rfl⟩)
+      exact mem_traceIds.1 this
+
+/-- C12.8b … and no trace that has a row is left out -/
+theorem search_complete (recs : List Rec) (rows : List TraceRow) (h : search recs = .ok rows)
+    (r : Rec) (hr : r ∈ recs) (row : TraceRow) (hrow : searchRow recs r.trace = .ok (some row)) : row ∈ rows := by
+  unfold search at h
+  simp only [] at h
+  split at h
+  · cases h
+  · split at h
+    · cases h
+    · rename_i rows' hrows
+      simp only [SearchOut.ok.injEq] at h
+      subst h
+      exact searchRows_complete hrows r.trace (mem_traceIds.2 ⟨r, hr, rfl⟩) row hrow
+
+/-- C12.8c the row of a trace with exactly one root record (parent id present and empty) whose times lie in
+the window: root service, root operation, number of records, number of records with status ERROR -/
+theorem searchRow_single_root (recs : List Rec) (t : String) (root : Rec) (sv nm : String)
+    (hroots : (ofTrace recs t).filter (fun r => r.pid == some "") = [root])
+    (hsv : root.svc = some sv) (hnm : root.name = some nm)
+    (hw1 : winStart * 1000000 ≤ f64 root.start) (hw2 : f64 root.end_ ≤ winEnd * 1000000) :
+    searchRow recs t = .ok (some { trace := t, svc := sv, op := nm, count := (ofTrace recs t).length,
+      errs := ((ofTrace recs t).filter (fun r => r.status == some "STATUS_CODE_ERROR")).length,
+      start := f64 root.start, end_ := f64 root.end_ }) := by
+  unfold searchRow
+  simp only [hroots]
+  have hwin : (decide (winStart * 1000000 > f64 root.start) || decide (winEnd * 1000000 < f64 root.end_)) = false := by
+    simp only [Bool.or_eq_false_iff, decide_eq_false_iff_not]
+    omega
+  simp [distinctNat, distinctStr, uniq, hsv, hnm, hwin]
+
+/-! ## 8. dependency graph: one response page -/
+
+/-- C12.9 the statement "the graph is computed from every span of the window" is FALSE for a handler that
+sends ONE request and reads ONE page (MakeTracesDependancyGraph: default page of 100 records) … -/
+theorem dep_first_page_counterexample :
+    ¬ ∀ (page : Nat) (recs : List Rec), 0 < page → depFirstPage page recs = depOf recs := by
+  intro h
+  have := h 1
+    [{ trace := "ab", sid := "02", pid := some "01", svc := some "b", name := some "x", start := 1, end_ := 2, dur := 1, status := some "ok" },
+     { trace := "ab", sid := "01", pid := some "", svc := some "a", name := some "y", start := 0, end_ := 3, dur := 3, status := some "ok" }]
+    (by decide)
+  exact absurd this (by decide)
+
+/-- … and TRUE when the window holds at most one page of records (what `dep` answers) -/
+theorem dep_first_page_partial (page : Nat) (recs : List Rec) (h : recs.length ≤ page) :
+    depFirstPage page recs = depOf recs := by
+  unfold depFirstPage
+  rw [take_of_length_le h]
+
+/-- the guard is satisfiable and the model answers there -/
+example : dep [{ trace := "ab", sid := "02", pid := some "01", svc := some "b", name := some "x", start := 1, end_ := 2, dur := 1, status := some "ok" },
+     { trace := "ab", sid := "01", pid := some "", svc := some "a", name := some "y", start := 0, end_ := 3, dur := 3, status := some "ok" }]
+    = .ok [(("a", "b"), 1)] := by decide
 
 /-! ## non-vacuity -/
 
